@@ -309,14 +309,27 @@ class EditStream(HTMLHandlerBase):
             params = flask.request.json
         else:
             params = flask.request.form
+        if not hasattr(params, 'get'):
+            return flask.make_response('Invalid request', 400)
+        required = ['title', 'marlin_la_url', 'playready_la_url']
+        if models.MediaFile.count(stream=current_stream) == 0:
+            required.append('directory')
+        for name in required:
+            if name not in params:
+                return flask.make_response(f'{name} is missing', 400)
+        for name in required + ['timing_ref']:
+            if not isinstance(params.get(name), (str, type(None))):
+                return flask.make_response(f'Invalid {name}', 400)
+        if params['title'] is None or params.get('directory', '') is None:
+            return flask.make_response('title and directory must not be null', 400)
         current_stream.title = params['title']
         context = self.create_context(current_stream.title, False)
-        if models.MediaFile.count(stream=current_stream) == 0:
+        if 'directory' in required:
             current_stream.directory = params['directory']
         current_stream.marlin_la_url = str_or_none(params['marlin_la_url'])
         current_stream.playready_la_url = str_or_none(params['playready_la_url'])
         current_stream.timing_reference = None
-        timing_reference = params.get('timing_ref', '')
+        timing_reference = params.get('timing_ref') or ''
         if timing_reference != '':
             mf = models.MediaFile.get(name=Path(timing_reference).stem)
             if not mf:
